@@ -71,7 +71,8 @@ theorem lifeOf_runStmts (cfg : Cfg) (t : Test) (ph : Phase) (d : Int) :
   | s :: rest, res, hf => by
     have ih := lifeOf_runStmts cfg t ph d rest
     cases hexc : cfg.exceptions <;>
-    cases s <;> simp [runStmts, PhaseOut.cons, Ev.tag?, ih, hexc]
+    cases s <;> simp [runStmts, PhaseOut.cons, Ev.tag?, ih, hexc] <;>
+    (split <;> simp [Ev.tag?, ih])      -- the `check` statement (one real check of a given kind): fails or goes on
 
 theorem lifeOf_phaseStep (cfg : Cfg) (t : Test) (ph : Phase) (st : TSt) :
     lifeOf (phaseStep cfg t ph st).evs = [.phase ph] := by
